@@ -407,6 +407,38 @@ def finish_script(script: List[dict]) -> List[dict]:
         w.close()
 
 
+def tlc_behaviours(n: int, depth: int, seed: int) -> List[List[dict]]:
+    """spec -> code: behaviours of Transport.tla generated by TLC's simulator (each state carries the environment action taken) are
+    replayed action by action on the real handlers"""
+    import glob
+    import os
+    import shutil
+    from ..tlaparse import parse_simulation_file
+    wd = tlc.scratch_dir("sim-")
+    try:
+        res = tlc.run_tlc("MC_Transport", "MC_Transport_sim.cfg", workers=1, timeout=1800, workdir=wd,
+                          extra=["-simulate", f"file={wd}/beh,num={n}", "-depth", str(depth), "-seed", str(seed + 1)])
+        tlc.require_ok(res, "Transport simulation")
+        if res.violated:
+            raise tlc.MachineryError("simulation of Transport.tla violates " + str(res.violated))
+        scripts = []
+        for f in sorted(glob.glob(os.path.join(wd, "beh_*"))):
+            acts = [st["act"] for _, _, st in parse_simulation_file(f) if "act" in st]
+            script = []
+            for a in acts:
+                if a["op"] == "init":
+                    continue
+                ev = {k: (str(x) if not isinstance(x, (bool, int)) else x) for k, x in a.items()}
+                if "fail" in ev:
+                    ev["fail"] = 1 if ev["fail"] else 0
+                script.append(ev)
+            if script:
+                scripts.append(script)
+        return [run_script(s) for s in scripts]
+    finally:
+        shutil.rmtree(wd, ignore_errors=True)
+
+
 def model_check(v: Verdict, tier: str) -> None:
     cfgs = ["MC_Transport_quick.cfg"] if tier == "quick" else ["MC_Transport_quick.cfg", "MC_Transport_thorough.cfg"]
     for cfg in cfgs:
@@ -453,6 +485,9 @@ def run(prop: str, tier: str) -> int:
         scripts = fault_scripts(tier)
         traces += [finish_script(s) for s in scripts]
         v.notes["fault_scripts"] = len(scripts)
+    beh = tlc_behaviours(300 if tier == "quick" else 6000, 40, __import__("harness.common", fromlist=["seed"]).seed())
+    v.notes["tlc_simulated_behaviours_replayed"] = len(beh)
+    traces += beh
     nrand = 600 if tier == "quick" else 12000
     for _ in range(nrand):
         traces.append(random_session(r, r.randint(10, 45)))
@@ -475,6 +510,9 @@ def run(prop: str, tier: str) -> int:
     drift = [x for x in mrej if id(x.trace) not in contract_bad]
     v.notes["trace_validation"] = {"traces": len(traces), "rejected_by_contract": len(crej), "rejected_by_model": len(mrej),
                                    "model_drift_only": len(drift), "tlc_states": dist + cdist}
+    for x in drift[:3]:
+        v.notes.setdefault("model_drift_examples", []).append({"step": x.matched + 1, "script": [{k: e[k] for k in e if k in ("op", "c", "k", "it", "id", "i", "fail", "big")} for e in x.trace[: x.matched + 1]],
+                                                               "observed": {k: x.trace[x.matched][k] for k in ("wire", "npend", "clients", "pol", "closed", "ready", "ndev")} if x.matched < len(x.trace) else None})
     if drift:
         print(f"NOTE: {len(drift)} traces are no longer explained step by step by Transport.tla although the C18/C19 contract "
               f"holds on them (implementation changed shape; first at step #{drift[0].matched + 1}); not a violation")
